@@ -13,6 +13,18 @@ for EVERY token list: no assumption on positions, kinds, values or order.
 Header extraction never raises by property C15 (`extractHeaders_total`, re-exported by
 `Lemmas/HeadersWF.lean`); everything after header extraction is proved here
 (`error_only_from_headers` does not use C15).
+
+This file is the per-file part of C03 only.  The other clauses of the property are stated where
+their models live:
+* "not valid UTF-8": `Gaps.read_file_total`, `Gaps.utf8_accepts_iff` (every byte string is decoded:
+  UTF-8 when well-formed, else Latin-1);
+* "a scan of a tree containing it completes and writes a report": `Pipe.scan_never_raises`
+  (whatever the cache file holds), `Pipe.scan_writes_valid_json`;
+* "check on it, named as a file or through a directory from any working directory, completes with
+  exit status 0 or 1": `C12cwd.check_total_pipeline_any_cwd`, `C12cwd.exit_status_iff`,
+  `C12cwd.check_error_only_from_analysis` (path arithmetic never raises).
+Not theorems (declared partial in DESIGN section 6): termination / exceptions of the Pygments
+lexers, errors of the operating system, CPython's recursion limit.
 -/
 namespace CL.C03
 
